@@ -2,12 +2,13 @@
 import os, sys, json, subprocess, importlib
 VERIF = os.path.dirname(os.path.dirname(os.path.abspath(__file__)))
 
-E1 = {"C01": "c01"}
+E1 = {"C01": "c01", "C02": "c02", "C15": "c15", "C19": "c19"}
 
 
 def write_evidence(pid, ev):
-    os.makedirs(os.path.join(VERIF, "evidence"), exist_ok=True)
-    with open(os.path.join(VERIF, "evidence", pid + ".json"), "w") as f:
+    d = os.environ.get("VERIF_EVIDENCE_DIR", os.path.join(VERIF, "evidence"))
+    os.makedirs(d, exist_ok=True)
+    with open(os.path.join(d, pid + ".json"), "w") as f:
         json.dump(ev, f, indent=1)
         f.write("\n")
 
